@@ -32,6 +32,7 @@ CAT = [
     (".word {L}", ["a"]), (".word {L}, {M}", ["a", "a"]), (".word {L}-{M}", ["f"]), (".word {L}+4", ["a"]),
     (".word 123", ["f"]), ("mov #{X}, r4", ["f", "f"]), ("mov {X}(r1), {L}", ["f", "f", "f"]),
     (".byte 1, 2", ["f"]), ("nop", ["f"]),
+    ("mov {L}-2(r1), r0", ["f", "a"]), ("clr @{L}-4(r2)", ["f", "a"]), ("mov {X}+{L}(r3), {M}", ["f", "a", "f"]),
 ]
 PIC = [c for c in CAT if "a" not in c[1]]
 
@@ -66,6 +67,10 @@ FIXED = [
     ("entry = L1\nL0: mov #L2-entry, r0\nL1: nop\nL2: .word entry, L2-entry\n", ["f", "f", "f", "a", "f"]),
     ("fin = L2\nstart = L0\nL0: mov #fin-start, L1\nL1: .word fin, start-fin\nL2:\n", ["f", "f", "f", "a", "f"]),
     ("L0: clr tgt\nsub #tgt-L0, r1\ntgt = L1\n.word 0\nL1: .word tgt\n", ["f", "f", "f", "f", "f", "a"]),
+    # displacements written as differences / sums directly before the register
+    ("L0: mov L1-2(r1), r0\nL1: clr @L0-4(r2)\nmov 6+L1(r3), L0\n", ["f", "a", "f", "a", "f", "a", "f"]),
+    # a 32-bit cell holding an address: the only absolute reference that still assembles when the address passes 0o177777
+    ("L0: nop\nL1: .dword L1, L0 + 4\nbr L0\n", ["f", "dh", "dl", "dh", "dl", "f"]),
 ]
 
 
@@ -110,6 +115,14 @@ def h_reloc(params, vals, ctx):
         w1, w2 = word_at(c1, 2 * i), word_at(c2, 2 * i)
         if k == "f":
             if not (w1 == w2):
+                return False
+        elif k == "dl":
+            continue
+        elif k == "dh":
+            # high word (stored first) and low word form one 32-bit cell: it moves by exactly the base difference, carry included
+            v1 = 65536 * w1 + word_at(c1, 2 * i + 2)
+            v2 = 65536 * w2 + word_at(c2, 2 * i + 2)
+            if not (v2 - v1 == b2 - b1):
                 return False
         else:
             if not ((w2 - w1) % 65536 == (b2 - b1) % 65536):
